@@ -19,14 +19,15 @@ import (
 )
 
 type c17Case struct {
-	Form       string `json:"form"` // address template with %d for the port, or a fixed malformed string
-	Valid      bool   `json:"valid"`
-	PortInUse  bool   `json:"port_in_use"`
-	PortAdd    int    `json:"port_add"` // added to the port number in the address text (65536: out of range)
-	TLS        bool   `json:"tls"`      // Run is given WithTLSConfig
-	Pollers    int    `json:"pollers"`
-	GoMaxProcs int    `json:"gomaxprocs"`
-	SpinBefore int    `json:"spin_before"` // scheduler yields between starting the pollers and calling Run
+	Form        string `json:"form"` // address template with %d for the port, or a fixed malformed string
+	Valid       bool   `json:"valid"`
+	PortInUse   bool   `json:"port_in_use"`
+	HeldByGldap bool   `json:"held_by_gldap"` // the port is held by another running gldap server instead of a plain listener
+	PortAdd     int    `json:"port_add"`      // added to the port number in the address text (65536: out of range)
+	TLS         bool   `json:"tls"`           // Run is given WithTLSConfig
+	Pollers     int    `json:"pollers"`
+	GoMaxProcs  int    `json:"gomaxprocs"`
+	SpinBefore  int    `json:"spin_before"` // scheduler yields between starting the pollers and calling Run
 }
 
 var c17Valid = []string{"127.0.0.1:%d", "localhost:%d", ":%d", "[::1]:%d", "::1:%d", "0.0.0.0:%d", "[::]:%d"}
@@ -42,7 +43,39 @@ func c17Exec(c c17Case, st *lab.Stats) *lab.Fail {
 		return nil
 	}
 	var hold []net.Listener
-	if c.PortInUse {
+	if c.PortInUse && c.HeldByGldap {
+		// another gldap server of this process already serves on every loopback family of that port
+		var others []*gldap.Server
+		for _, a := range []string{fmt.Sprintf("127.0.0.1:%d", port), fmt.Sprintf("[::1]:%d", port)} {
+			o, err := gldap.NewServer(gldap.WithLogger(hclog.NewNullLogger()))
+			if err != nil {
+				st.Inconclusive(err.Error())
+				return nil
+			}
+			others = append(others, o)
+			go func(o *gldap.Server, a string) { _ = o.Run(a) }(o, a)
+		}
+		defer func() {
+			for _, o := range others {
+				done := make(chan struct{})
+				go func(o *gldap.Server) { _ = o.Stop(); close(done) }(o)
+				select {
+				case <-done:
+				case <-time.After(10 * time.Second):
+				}
+			}
+		}()
+		dl := time.Now().Add(5 * time.Second)
+		for _, o := range others {
+			for !o.Ready() && time.Now().Before(dl) {
+				time.Sleep(100 * time.Microsecond)
+			}
+			if !o.Ready() {
+				st.Inconclusive("the port-holding gldap server did not start")
+				return nil
+			}
+		}
+	} else if c.PortInUse {
 		// hold the port on every loopback family so that any valid form collides
 		for _, a := range []string{fmt.Sprintf("127.0.0.1:%d", port), fmt.Sprintf("[::1]:%d", port)} {
 			if l, err := net.Listen("tcp", a); err == nil {
@@ -230,7 +263,7 @@ func c17Exec(c c17Case, st *lab.Stats) *lab.Fail {
 func TestC17(t *testing.T) {
 	lab.Prop[c17Case]{
 		ID: "C17", Part: "ready",
-		Rule: "rapid: listen addresses valid (127.0.0.1, localhost, empty host, [::1], bare ::1, 0.0.0.0, [::]), malformed (15 forms: empty, no port, empty port, unbalanced brackets, bad IPv4/IPv6, text), valid forms with an out-of-range port number (port +- 65536...) and valid-but-port-already-bound, each with and without WithTLSConfig (held by the harness on both loopback families); 0..8 poller goroutines spin on Ready() from BEFORE Run is called and the first one that sees true dials immediately; GOMAXPROCS 1/2/4/16; oracle = Ready false before Run; Ready true => dial succeeds and a bind is served; Run error => no poller ever saw true and Ready is false afterwards; non-trivial = failing address or pollers spinning before Run; distinct by hash",
+		Rule: "rapid: listen addresses valid (127.0.0.1, localhost, empty host, [::1], bare ::1, 0.0.0.0, [::]), malformed (15 forms: empty, no port, empty port, unbalanced brackets, bad IPv4/IPv6, text), valid forms with an out-of-range port number (port +- 65536...) and valid-but-port-already-bound (held by a plain listener of the harness or by another running gldap server), each with and without WithTLSConfig (held by the harness on both loopback families); 0..8 poller goroutines spin on Ready() from BEFORE Run is called and the first one that sees true dials immediately; GOMAXPROCS 1/2/4/16; oracle = Ready false before Run; Ready true => dial succeeds and a bind is served; Run error => no poller ever saw true and Ready is false afterwards; non-trivial = failing address or pollers spinning before Run; distinct by hash",
 		Gen: func(t *rapid.T) c17Case {
 			c := c17Case{
 				Pollers:    rapid.SampledFrom([]int{0, 1, 2, 4, 8}).Draw(t, "pollers"),
@@ -248,6 +281,7 @@ func TestC17(t *testing.T) {
 				c.PortAdd = rapid.SampledFrom([]int{65536, 131072, -65536, 1000000}).Draw(t, "portadd")
 			case 1, 2, 3:
 				c.Form, c.Valid, c.PortInUse = rapid.SampledFrom(c17Valid).Draw(t, "validform"), true, true
+				c.HeldByGldap = rapid.Bool().Draw(t, "heldbygldap")
 			default:
 				c.Form, c.Valid = rapid.SampledFrom(c17Valid).Draw(t, "validform"), true
 			}
